@@ -161,7 +161,40 @@ def t_record_if(rng):
   return prog
 
 
-TEMPLATES = [t_sibling_combines, t_division, t_outer_only_value, t_multivalued_calls, t_nested_disjunction,
+def t_injectible_self_application(rng):
+  """Non-concrete F(x) = Op{y * x :- y in [..]} applied to its own result: F(F(a)), F(a) + F(F(a)) ..."""
+  prog = Program()
+  fact_pred(prog, rng, 'A', 1, rng.randint(1, 3), (1, 2, 3))
+  op = rng.choice(['Sum', 'Max', 'Min'])
+  lst = [rng.choice([1, 2, 3]) for _ in range(rng.randint(2, 3))]
+  arith = rng.choice(['*', '+'])
+
+  def f_model(arg, k):
+    y = 'yinl%d' % k
+    return agg(op, OP(arith, V(y), arg), {'in': [V(y), L(lst)]})
+
+  def f_text(arg):
+    return {'call': 'F', 'args': [['col0', arg]]}
+  a = V('a')
+  shape = rng.choice(['ff', 'fff', 'f+ff', 'ff*ff'])
+  if shape == 'ff':
+    t, m = f_text(f_text(a)), f_model(f_model(a, 1), 2)
+  elif shape == 'fff':
+    t, m = f_text(f_text(f_text(a))), f_model(f_model(f_model(a, 1), 2), 3)
+  elif shape == 'f+ff':
+    t, m = OP('+', f_text(a), f_text(f_text(a))), OP('+', f_model(a, 1), f_model(f_model(a, 2), 3))
+  else:
+    t, m = OP('*', f_text(f_text(a)), f_text(f_text(a))), OP('*', f_model(f_model(a, 1), 2), f_model(f_model(a, 3), 4))
+  eq = {'eq': [V('v'), t], '$model': {'eq': [V('v'), m]}}
+  derived(prog, 'P', ['col0', 'col1'], ['int', 'int'], [rule('P', [['col0', a], ['col1', V('v')]], AND(atom('A', a), eq))])
+  frule = {'head': 'F', 'args': [['col0', V('x')], ['logica_value', agg(op, OP(arith, V('y'), V('x')), {'in': [V('y'), L(lst)]})]],
+           'distinct': False, 'body': None}
+  prog.extra_text.append(G.Printer().rule(frule))
+  prog.features.add('tpl:injectible-self-application')
+  return prog
+
+
+TEMPLATES = [t_injectible_self_application, t_sibling_combines, t_division, t_outer_only_value, t_multivalued_calls, t_nested_disjunction,
              t_no_table_rule, t_record_if]
 
 
@@ -169,4 +202,6 @@ def build(rng, mask, kwargs):
   """builder for semcheck.make_programs"""
   names = kwargs.get('templates')
   pool = [t for t in TEMPLATES if names is None or t.__name__ in names]
+  if '_seed' in kwargs:
+    return pool[kwargs['_seed'] % len(pool)](rng)    # round robin over the shapes
   return rng.choice(pool)(rng)
